@@ -14,7 +14,7 @@ import more_itertools
 from cirbo.core.boolean_function import RawTruthTableModel
 from cirbo.core.circuit import Circuit
 from cirbo.core.circuit.exceptions import CircuitValidationError
-from cirbo.core.circuit.gate import Label
+from cirbo.core.circuit.gate import NOT, Label
 from cirbo.core.circuit.operators import GateState, Undefined
 from cirbo.core.circuit.validation import check_circuit_has_no_cycles
 from cirbo.core.logic import DontCare
@@ -409,7 +409,11 @@ def _rename_subcircuit_gates(
     i = 0
     for node in subcircuit.top_sort(inverse=True):
         if node.label not in inputs_mapping and node.label not in outputs_mapping:
-            subcircuit.rename_gate(node.label, labels_to_remove[i])
+            # The labels of the removed gates are reused while there are any (the
+            # added NOT gates may make the new subcircuit larger than the old one),
+            # the other gates keep their unique temporary labels.
+            if i < len(labels_to_remove):
+                subcircuit.rename_gate(node.label, labels_to_remove[i])
             i += 1
 
     return subcircuit
@@ -587,14 +591,22 @@ def minimize_subcircuits(
 
         for output in subcircuit.outputs:
             if output not in filtered_outputs:
+                if output not in outputs_negation_mapping:
+                    # The output is equal to an input or to another output: nothing
+                    # in the new subcircuit corresponds to it, it is left as it is.
+                    continue
+                # The output is the negation of an input or of a non-trivial output:
+                # it is computed by a NOT gate in the new subcircuit (the synthesised
+                # gates have other types, so there is no such gate yet).
                 negation_gate: Label = outputs_negation_mapping[output]
-                new_gate = output_labels_mapping[negation_gate]
-
-                for user in new_subcircuit.get_gate_users(new_gate):
-                    if new_subcircuit.get_gate(user).gate_type.name == 'NOT':
-                        output_labels_mapping[output] = user
-                        new_subcircuit.mark_as_output(user)
-                        break
+                if negation_gate in output_labels_mapping:
+                    new_gate = output_labels_mapping[negation_gate]
+                else:
+                    new_gate = input_labels_mapping[negation_gate]
+                not_gate: Label = "not_" + uuid.uuid4().hex
+                new_subcircuit.emplace_gate(not_gate, NOT, (new_gate,))
+                new_subcircuit.mark_as_output(not_gate)
+                output_labels_mapping[output] = not_gate
 
         # Changing initial circuit
         new_circuit: Circuit = copy.deepcopy(circuit)
